@@ -45,7 +45,9 @@ def pattern(ct):
 def lua_of(ct, width_of, pad=""):
     k = ct[0]
     if k == "Bin": return f"{lua_of(ct[2], width_of, pad)} {BOPSRC[ct[1]]} {lua_of(ct[3], width_of, pad)}"
-    if k == "Un": return UOPSRC[ct[1]] + lua_of(ct[2], width_of, pad)
+    if k == "Un":
+        inner = lua_of(ct[2], width_of, pad)
+        return UOPSRC[ct[1]] + (" " if UOPSRC[ct[1]] == "-" and inner.startswith("-") else "") + inner      # `- -x`, never `--x`
     if k == "Par": return "(" + pad + lua_of(ct[1], width_of, pad) + pad + ")"
     if k == "TA": return lua_of(ct[1], width_of, pad) + " :: number"
     kind, sym, lid = ct[1], ct[2], ct[3]
@@ -167,7 +169,7 @@ def _work(job):
             out["instances"] += C.instances
             if C.inconclusive:
                 out["inconclusive"].append(f"{root.show()}/{entry}: {C.inconclusive[0]}")
-            base = O.valid_ops(root) + [O.wf(tin)]
+            base = O.valid_ops(root) + [O.wf(tin, source=True)]
             s = z3.Solver()
             s.set("timeout", 60000)
             s.add(base)
